@@ -32,6 +32,20 @@ def memo_sites(f: FunctionInfo) -> List[Tuple[ast.If, ast.Assign, ast.AST, ast.A
                 if isinstance(st, ast.Assign) and len(st.targets) == 1 and isinstance(st.targets[0], ast.Subscript) \
                         and norm(st.targets[0].value) == norm(C) and norm(st.targets[0].slice) == norm(K):
                     out.append((n, st, C, K))
+        # early-return form:  if K in C: return C[K]   …compute…   C[K] = V
+        if isinstance(n, ast.If) and isinstance(n.test, ast.Compare) and len(n.test.ops) == 1 and isinstance(n.test.ops[0], ast.In) and not n.orelse:
+            K, C = n.test.left, n.test.comparators[0]
+            root = C
+            while isinstance(root, (ast.Subscript, ast.Attribute)):
+                root = root.value
+            if not (isinstance(root, ast.Name) and root.id in ("self", "cls")):
+                continue
+            if not any(isinstance(r, ast.Return) and r.value is not None and norm(r.value) == f"{norm(C)}[{norm(K)}]" for b in n.body for r in ast.walk(b)):
+                continue
+            for st in ast.walk(f.node):
+                if isinstance(st, ast.Assign) and len(st.targets) == 1 and isinstance(st.targets[0], ast.Subscript) and st.lineno > n.lineno \
+                        and norm(st.targets[0].value) == norm(C) and norm(st.targets[0].slice) == norm(K):
+                    out.append((n, st, C, K))
     return out
 
 
@@ -65,7 +79,11 @@ def value_dependencies(idx, f: FunctionInfo, S: Sem, guard: ast.If, store: ast.A
     deps: Set[str] = set()
     seen_expr: Set[int] = set()
     work: List[Tuple[ast.AST, int]] = [(store.value, cfg.node(store))]
-    body_nodes = [x for b in guard.body for x in ast.walk(b)]
+    if isinstance(guard.test.ops[0], ast.NotIn):
+        body_nodes = [x for b in guard.body for x in ast.walk(b)]
+    else:
+        # early-return form: the memoised computation is everything after the guard
+        body_nodes = [x for b in f.node.body for x in ast.walk(b) if getattr(x, "lineno", 0) > guard.lineno and not any(x is y for y in ast.walk(guard))]
     while work:
         e, at = work.pop()
         if id(e) in seen_expr:
